@@ -43,6 +43,23 @@ def run(tier):
     solver = X.Solver(timeout_ms=30000 if not thorough else 120000)
     lits = LX.c10_literals(K.seed(), thorough)
     regs = LX.c10_regexes(K.seed(), thorough)
+    c10_fixed = set(regs)
+    import random as _random
+    _rnd = _random.Random(31337 + K.seed())
+    seen_r = set(regs)
+    nrand = 400 if thorough else 40
+    while nrand > 0:
+        rr = LX.random_regex(_rnd, _rnd.randint(1, 3))
+        if rr not in seen_r and rr.strip() != "":
+            seen_r.add(rr)
+            regs.append(rr)
+            nrand -= 1
+    # seeded random literal texts (printable ASCII incl. metacharacters, some non-ASCII)
+    pool = [chr(c) for c in range(0x21, 0x7f)] + list("éüλ日😀ß")
+    for _ in range(200 if thorough else 30):
+        t = "".join(_rnd.choice(pool) for _ in range(_rnd.randint(1, 5)))
+        if t not in lits:
+            lits.append(t)
     samples, inconclusive, violations = [], [], []
     programs = 0
     checked = 0
@@ -94,11 +111,12 @@ def run(tier):
         programs += 1
         try:
             hb = X.parse(rx)
-            if X.hir_features(hb) & {"look", "bytes"}:
-                raise X.Unsupported("look-around / bytes")
+            if X.hir_features(hb) & {"look", "bytes", "nongreedy", "named"}:
+                raise X.Unsupported("look-around / bytes / non-greedy / named capture (documented as unsupported: C11's clause)")
         except X.Unsupported as ex:
-            inconclusive.append("corpus regex %r not translatable: %s" % (rx, ex))
-            continue
+            if rx in c10_fixed:
+                inconclusive.append("corpus regex %r not translatable: %s" % (rx, ex))
+            continue        # a seeded random regex outside the supported fragment is dropped
         if not gen.ok:
             violations.append(("re-rejected:%s" % rx, "supported regex %r is rejected by the generator: %s" % (rx, gen.out.strip().splitlines()[-1:]),
                                {"regex": rx, "out": gen.out[-1500:]}))
